@@ -244,6 +244,11 @@ def check(ctx):
                   m, n, detail=f"{key} consumed by annotated() hooks" )
 
 
+    # ---------------- helpers applied to raw annotations look through Annotated
+    ctx.rule("C04.R9", "is_union_of (nullability of GraphQL arguments, Undefined / None omission of fields and serialized methods) looks through Annotated[...]: raw field / parameter / return annotations reach it", floor=5)
+    from .common_annotated import annotated_transparency_rule
+    annotated_transparency_rule(ctx, "C04.R9")
+
 def late_binding_rule(ctx, rule):
     """apischema.methods.method_wrapper: each wrapper returns `getattr(self, name)` (called for methods), `name` being the
     registered attribute name; nothing bound at decoration time (method, method.fget, a local built from them) is called."""
@@ -350,6 +355,7 @@ def passthrough_rule(ctx):
 
 
 def mutants(mb):
+    mb.add_text("is-union-of-not-annotated-transparent", "apischema/utils.py", "    return tp == of or (is_union(get_origin_or_type2(tp)) and of in get_args2(tp))\n", "    return tp == of or (is_union(get_origin_or_type(tp)) and of in get_args(tp))\n", "C04.R9", "is_union_of")
     mb.add_text("skip-own-metadata-only", "apischema/objects/fields.py", "        return self.full_metadata.get(SKIP_METADATA, SkipMetadata())\n", "        return self.metadata.get(SKIP_METADATA, SkipMetadata())\n", "C04.R8", "SKIP_METADATA")
     MW = "apischema/methods.py"
     mb.add_text("wrapper-calls-fget", MW, "            assert name is not None\n            return getattr(self, name)\n", "            return method.fget(self)\n", "C04.R7", "wrapper#0")
